@@ -28,7 +28,11 @@ class Result:
         self.counters[name] = self.counters.get(name, 0) + n
 
     def see(self, name, obj):
-        self.distinct.setdefault(name, set()).add(obj if isinstance(obj, str) and len(obj) <= 16 else h64(obj))
+        d = self.distinct.setdefault(name, set())
+        if len(d) >= 200000:  # enough to show diversity; keeps shard reports small
+            self.count('distinct_cap_reached_' + name)
+            return
+        d.add(obj if isinstance(obj, str) and len(obj) <= 16 else h64(obj))
 
     def sample(self, obj):
         if len(self.samples) < self._max_samples:
